@@ -70,7 +70,7 @@ func runReal(p Prog, rep int) (results [][]string, final string, panicTxt string
 				<-start
 			}
 			for _, op := range p.Threads[ti] {
-				results[ti] = append(results[ti], execOp(w, op))
+				results[ti] = append(results[ti], execOp(w, ti, op))
 			}
 		}(ti)
 	}
@@ -78,6 +78,7 @@ func runReal(p Prog, rep int) (results [][]string, final string, panicTxt string
 		close(start)
 	}
 	wg.Wait()
+	results = w.resolveAll(results)
 	for _, px := range panics {
 		if px != "" {
 			return results, "", px
